@@ -520,6 +520,110 @@ theorem rne_isSome_of_close (x y : ℚ) (hx : IsF64 x) (hc : Close x y) : (rne y
   · exact key
 
 
+/-! ### error bounds of the executable rounding -/
+
+
+/-- absolute error of `rnePos`: half a unit in the last place, or half the subnormal spacing -/
+theorem rnePos_err (p q : ℕ) (hp : 0 < p) (hq : 0 < q) (r : ℚ) (h : rnePos p q = some r) :
+    |r - (p : ℚ) / q| ≤ (p : ℚ) / q / 2 ^ 53 + (2 : ℚ) ^ (-1075 : ℤ) := by
+  obtain ⟨m, hm, hspec⟩ := rnePos_spec p q hp hq
+  obtain ⟨hlo, -⟩ := ilog2_spec p q hp hq
+  set y : ℚ := (p : ℚ) / q with hy
+  set lg := ilog2 p q with hlg
+  rw [hspec] at h
+  split at h
+  · cases h
+  have hr : r = (m : ℚ) * (2 : ℚ) ^ (max (lg - 52) (-1074)) := by simpa using h.symm
+  have hy0 : 0 ≤ y := by positivity
+  have key : ∀ e : ℤ, (e = lg - 52 ∨ e = -1074) → |y / (2 : ℚ) ^ e - m| ≤ 1 / 2 →
+      |(m : ℚ) * (2 : ℚ) ^ e - y| ≤ y / 2 ^ 53 + (2 : ℚ) ^ (-1075 : ℤ) := by
+    intro e he hme
+    have hpe := two_zpow_pos e
+    have e1 : (m : ℚ) * (2 : ℚ) ^ e - y = -((y / (2 : ℚ) ^ e - m) * (2 : ℚ) ^ e) := by field_simp; ring
+    rw [e1, abs_neg, abs_mul, abs_of_pos hpe]
+    have h1 : |y / (2 : ℚ) ^ e - m| * (2 : ℚ) ^ e ≤ 1 / 2 * (2 : ℚ) ^ e :=
+      mul_le_mul_of_nonneg_right hme hpe.le
+    have h1075 := two_zpow_pos (-1075)
+    rcases he with he | he
+    · have : 1 / 2 * (2 : ℚ) ^ e = (2 : ℚ) ^ lg / 2 ^ 53 := by
+        rw [he, show lg - 52 = lg + (-52) by ring, zpow_add₀ two_ne]; norm_num; ring
+      have h2 : (2 : ℚ) ^ lg / 2 ^ 53 ≤ y / 2 ^ 53 := div_le_div_of_nonneg_right hlo (by positivity)
+      linarith
+    · have : 1 / 2 * (2 : ℚ) ^ e = (2 : ℚ) ^ (-1075 : ℤ) := by
+        rw [he, show (-1075 : ℤ) = -1 + -1074 by norm_num, zpow_add₀ two_ne]; norm_num
+      have : 0 ≤ y / 2 ^ 53 := by positivity
+      linarith
+  rw [hr]
+  apply key _ _ hm
+  rcases max_cases (lg - 52) (-1074) with ⟨h1, _⟩ | ⟨h1, _⟩
+  · exact Or.inl h1
+  · exact Or.inr h1
+
+theorem rne_err (y r : ℚ) (h : rne y = some r) : |r - y| ≤ |y| / 2 ^ 53 + (2 : ℚ) ^ (-1075 : ℤ) := by
+  unfold rne at h
+  have habs := abs_eq_natAbs_div y
+  have hq : 0 < y.den := y.den_pos
+  by_cases hy : y < 0
+  · simp only [hy, if_true, Option.map_eq_some_iff] at h
+    obtain ⟨r', hr', rfl⟩ := h
+    have hp : 0 < y.num.natAbs := by
+      have : y.num ≠ 0 := by
+        intro h0; rw [Rat.num_eq_zero] at h0; rw [h0] at hy; exact lt_irrefl _ hy
+      exact Int.natAbs_pos.mpr this
+    have := rnePos_err _ _ hp hq r' hr'
+    rw [← habs] at this
+    have e : -r' - y = -(r' - |y|) := by rw [abs_of_neg hy]; ring
+    rw [e, abs_neg]; exact this
+  · simp only [hy, if_false] at h
+    have hy' : 0 ≤ y := not_lt.mp hy
+    rcases Nat.eq_zero_or_pos y.num.natAbs with h0 | hp
+    · rw [h0, rnePos_zero] at h
+      have hy0 : y = 0 := by
+        rw [← Rat.num_eq_zero]; exact Int.natAbs_eq_zero.mp h0
+      cases h; subst hy0
+      have := two_zpow_pos (-1075)
+      simp; try linarith
+    · have := rnePos_err _ _ hp hq r h
+      rw [← habs, abs_of_nonneg hy'] at this
+      rwa [abs_of_nonneg hy']
+
+theorem rne_nonneg (y r : ℚ) (hy : 0 ≤ y) (h : rne y = some r) : 0 ≤ r := by
+  by_contra hr
+  push Not at hr
+  have := (rne_nearest y r h).2 0 isF64_zero
+  rw [sub_zero, abs_of_nonneg hy, abs_of_pos (by linarith)] at this
+  linarith
+
+theorem rne_isSome_of_abs_le (y : ℚ) (hb : |y| ≤ closeBound) : (rne y).isSome = true := by
+  rw [abs_eq_natAbs_div] at hb
+  have hq : 0 < y.den := y.den_pos
+  have key : (rnePos y.num.natAbs y.den).isSome = true := by
+    rcases Nat.eq_zero_or_pos y.num.natAbs with h0 | hp
+    · rw [h0, rnePos_zero]; rfl
+    · exact rnePos_isSome _ _ hp hq hb
+  unfold rne
+  split
+  · rw [Option.isSome_map]; exact key
+  · exact key
+
+theorem closeBound_ge : (2 : ℚ) ^ 40 ≤ closeBound := by
+  unfold closeBound
+  have h1 : (1 : ℚ) ≤ (2 : ℚ) ^ (971 : ℤ) := one_le_zpow₀ (by norm_num) (by norm_num)
+  have h2 : (2 : ℚ) ^ 40 ≤ (2 ^ 53 - 1) * 1 * (1 + 1 / 2 ^ 55) := by norm_num
+  have h3 : ((2 : ℚ) ^ 53 - 1) * 1 * (1 + 1 / 2 ^ 55) ≤ (2 ^ 53 - 1) * (2 : ℚ) ^ (971 : ℤ) * (1 + 1 / 2 ^ 55) := by
+    apply mul_le_mul_of_nonneg_right _ (by norm_num)
+    apply mul_le_mul_of_nonneg_left h1 (by norm_num)
+  exact le_trans h2 h3
+
+
+/-- text → double: every rational within 2⁻⁵⁵ (relative) of a binary64 value `x` is rounded to `x` -/
+theorem rne_eq_of_close (x y : ℚ) (hx : IsF64 x) (hc : Close x y) : rne y = some x := by
+  obtain ⟨r, hr⟩ := Option.isSome_iff_exists.mp (rne_isSome_of_close x y hx hc)
+  rw [hr, nearest_of_close hx hc (rne_nearest y r hr)]
+
+theorem rne_id (x : ℚ) (hx : IsF64 x) : rne x = some x :=
+  rne_eq_of_close x x hx (by unfold Close; simp; positivity)
+
 theorem rne_zero : rne 0 = some 0 := by decide +kernel
 
 end Evo.F64
